@@ -47,7 +47,7 @@ theorem readExactly_ok (n : Nat) (rest : List Bytes) : ∀ buf : Bytes,
         simpa [List.append_assoc] using h
       obtain ⟨b, r, h1, h2⟩ := ih (buf ++ c) h'
       refine ⟨b, r, ?_, ?_⟩
-      · simp only [readExactly, hn, if_false]
+      · simp only [readExactly, hn, if_false, Reader.feed]
         simpa [List.append_assoc] using h1
       · simpa [List.append_assoc] using h2
 
@@ -66,7 +66,7 @@ theorem readExactly_err (n : Nat) (rest : List Bytes) : ∀ buf : Bytes,
       simp only [List.length_append] at h; omega
     have h' : ((buf ++ c) ++ cs.flatten).length < n := by
       simpa [List.append_assoc] using h
-    simp only [readExactly, hn, if_false]
+    simp only [readExactly, hn, if_false, Reader.feed]
     simpa [List.append_assoc] using ih (buf ++ c) h'
 
 /-- `stream_recv_msg` on any split = the flat parser on the concatenation -/
